@@ -279,6 +279,7 @@ func (c *Cron) run() {
 			// and stop requests.
 			timerCh = make(chan time.Time)
 		} else {
+			verifPoint("arm")
 			timer = c.clk.NewTimer(c.entries[0].Next.Sub(now))
 			timerCh = timer.C()
 		}
@@ -286,6 +287,7 @@ func (c *Cron) run() {
 		for {
 			select {
 			case now = <-timerCh:
+				verifPoint("wake")
 				// Set timer to nil so we can exit cleanly
 				timer = nil
 
